@@ -513,9 +513,7 @@ async fn run_roundtrip(s: &Source, info: &mut CaseInfo) -> CheckResult {
         let a = std::fs::read(&src_blob).map_err(hf("harness/source-blob", "read source blob"))?;
         let d = std::fs::read(&dst_blob).map_err(hf(&format!("c18/{be}/roundtrip/blob-missing"), &format!("blob {file} in the imported storage")))?;
         ensure!(a == d, format!("c18/{be}/roundtrip/blob-differs"), "[{be}] blob {file} differs after the round trip ({} vs {} bytes)", a.len(), d.len());
-        let got = w2
-            .account
-            .download_file(file.vault_id(), file.secret_id(), file.file_name())
+        let got = crate::engine_acct::download_file_retry(&w2.account, file.vault_id(), file.secret_id(), file.file_name())
             .await
             .map_err(hf(&format!("c18/{be}/roundtrip/attachment-undecryptable"), "download_file on the imported account"))?;
         ensure!(&got == plain, format!("c18/{be}/roundtrip/attachment-differs"), "[{be}] decrypted attachment differs after the round trip ({} vs {} bytes)", got.len(), plain.len());
